@@ -1,1 +1,34 @@
-// hooks for src/peer_handler.rs
+// hooks for src/peer_handler.rs (private PieceRx)
+#![allow(dead_code, unused_imports)]
+use super::*;
+
+#[cfg(kani)]
+mod kani_harnesses {
+    use super::*;
+    // HAND/PieceRx::left/blocks_tile_the_piece on the REAL, unrewritten loop (for .. step_by): BOUNDED, every length up to
+    // BLOCKS * 16 KiB: block k starts at k*16384, lengths are 16384 except a non-empty last remainder, they add up to l (C10)
+    fn left_case(max_blocks: usize) {
+        let l: usize = kani::any();
+        kani::assume(l <= max_blocks * PIECE_BLOCK_SIZE);
+        let v = PieceRx::left(l);
+        let n = (l + PIECE_BLOCK_SIZE - 1) / PIECE_BLOCK_SIZE;
+        assert!(v.len() == n);
+        let mut off = 0usize;
+        let mut k = 0usize;
+        while k < v.len() {
+            let (b, len) = v[k];
+            assert!(b == off && b == k * PIECE_BLOCK_SIZE);
+            assert!(len > 0 && len <= PIECE_BLOCK_SIZE);
+            if k + 1 < n { assert!(len == PIECE_BLOCK_SIZE); }
+            off += len;
+            k += 1;
+        }
+        assert!(off == l);
+    }
+    #[kani::proof]
+    #[kani::unwind(6)]
+    fn kani_piece_rx_left_4() { left_case(4); }
+    #[kani::proof]
+    #[kani::unwind(19)]
+    fn kani_piece_rx_left_17() { left_case(17); }
+}
